@@ -3,9 +3,11 @@ use crate::common::*;
 use crate::PropDef;
 
 pub mod c04;
+pub mod c05;
+pub mod c18;
 
 pub fn all() -> &'static [PropDef] {
-    static ALL: &[PropDef] = &[c04::DEF];
+    static ALL: &[PropDef] = &[c04::DEF, c05::DEF, c18::DEF];
     ALL
 }
 
